@@ -1,5 +1,6 @@
 /* C19 — the RFC 5170 PRNG is the Park-Miller minimal standard (DESIGN.md §5 C19). */
 #include "common.h"
+#include <pthread.h>
 #include "of_openfec_api.h"
 #include "of_rand.h"
 
@@ -57,6 +58,28 @@ static void walk_arc(long unit, uint64_t first_step, uint64_t nsteps, rng_t *rng
 	rep_count("prng_steps_checked", nsteps);
 	rep_case_done(1, 0, 1);
 	(void)unit;
+}
+
+/* The generator is one process-wide stream: a seed accepted in one thread governs the draws of any other (the matrix builder is
+ * called from whichever thread configures a session). Threads run strictly one after the other here; nothing is concurrent. */
+typedef struct { uint64_t start, maxv; int n; uint64_t out[64]; } thr_draw_t;
+static void *thr_draw(void *a) { thr_draw_t *t = a; for (int i = 0; i < t->n; i++) t->out[i] = of_rfc5170_rand(t->maxv); return NULL; }
+static void *thr_seed(void *a) { thr_draw_t *t = a; of_rfc5170_srand(t->start); return NULL; }
+static void cross_thread_case(uint64_t seed, uint64_t maxv)
+{
+	if (!rep_case("one stream across threads seed=%llu maxv=%llu", (unsigned long long)seed, (unsigned long long)maxv)) return;
+	thr_draw_t t = { seed, maxv, 48, { 0 } }; pthread_t th; uint64_t s = seed; int bad = 0;
+	/* seeded here, first draws in another thread, next draws here, seeded there, drawn here */
+	of_rfc5170_srand(seed);
+	if (pthread_create(&th, NULL, thr_draw, &t)) rep_fatal("pthread_create"); pthread_join(th, NULL);
+	for (int i = 0; i < t.n; i++) { s = pm_next(s); if (t.out[i] != oracle_ret(s, maxv)) { bad = 1; rep_viol("prng-state", "draw %d made by a second thread after of_rfc5170_srand(%llu) in the first: got %llu, the stream gives %llu", i, (unsigned long long)seed, (unsigned long long)t.out[i], (unsigned long long)oracle_ret(s, maxv)); break; } }
+	for (int i = 0; i < 16 && !bad; i++) { s = pm_next(s); uint64_t v = of_rfc5170_rand(maxv); if (v != oracle_ret(s, maxv)) { bad = 1; rep_viol("prng-state", "the stream continued in the first thread after %d draws in a second one: got %llu want %llu", t.n, (unsigned long long)v, (unsigned long long)oracle_ret(s, maxv)); } }
+	t.start = seed ^ 0x2A; if (t.start < 1 || t.start > 2147483646ULL) t.start = 7;
+	if (pthread_create(&th, NULL, thr_seed, &t)) rep_fatal("pthread_create"); pthread_join(th, NULL);
+	s = t.start;
+	for (int i = 0; i < 16 && !bad; i++) { s = pm_next(s); uint64_t v = of_rfc5170_rand(maxv); if (v != oracle_ret(s, maxv)) { bad = 1; rep_viol("prng-seed-accept", "seed %llu accepted in a second thread does not govern the draws of the first: got %llu want %llu", (unsigned long long)t.start, (unsigned long long)v, (unsigned long long)oracle_ret(s, maxv)); } }
+	rep_count("cross_thread_stream_checks", 1);
+	rep_case_done(1, 0, 1);
 }
 
 int p_c19(void)
@@ -196,6 +219,13 @@ int p_c19(void)
 			rep_case_done(1, 0, 1);
 		}
 	}
+	rep_unit(unit);
+	if (rep_unit_mine(unit)) {
+		rng_t r = rng_make(g_run.seed, 1990, 0);
+		static const uint64_t mv[] = { 2, 255, 65536, 12750000, 2147483647ULL };
+		for (int i = 0; i < (g_run.thorough ? 200 : 20); i++) cross_thread_case(i == 0 ? 1 : i == 1 ? 2147483646ULL : 1 + rng_below(&r, 2147483646u), mv[i % 5]);
+	}
+	unit++;
 	if (g_run.thorough) {
 		rep_unit(unit);
 		if (rep_unit_mine(unit) && rep_case("cycle-length 16807^(2^31-2) == 1 (closing state of the last arc equals seed 1)")) {
